@@ -49,12 +49,13 @@ def _rvec(rng):
 
 
 def cases(rng, budget, widx, nworkers, tier):
+    sm = lambda: tier == "quick" or rng.random() < 0.5      # thorough: half of the bodies from the full families (prisms, bipyramids, general hulls)
     i = widx
     while True:
         k = gen.KINDS[i % 7]
         style = "AB"[(i // 7) % 2]
         i += 1
-        d = gen.rand_obj(rng, k, small=True)
+        d = gen.rand_obj(rng, k, small=sm())
         moves = [_rvec(rng) for _ in range(rng.randint(1, 6))]
         yield {"d": d, "style": style, "moves": moves, "ls": rng.getrandbits(30), "ps": rng.getrandbits(30)}
 
